@@ -219,8 +219,10 @@ def renderObs (s : St) (verdict : String) (outs : List Out) (impl : List (String
     | "sto" => ",".intercalate s.sto
     | "ann" =>
       -- `completed` announces race with the announcers being stopped: not compared
-      let implRest := (commaList v).filter fun e => (e.splitOn ":completed:").length < 2
-      let implCompleted := (commaList v).filter fun e => (e.splitOn ":completed:").length ≥ 2
+      -- entries are `idx:event:peerid:useragent:infohash:L<left>:P<port verdict>`; the last two are judged by oracles
+      let base (e : String) : String := ":".intercalate ((e.splitOn ":").take 5)
+      let implRest := ((commaList v).filter fun e => (e.splitOn ":completed:").length < 2).map base
+      let implCompleted := ((commaList v).filter fun e => (e.splitOn ":completed:").length ≥ 2)
       if sortStrings implRest = sortStrings anns then v
       else joinOrDash (sortStrings (anns ++ implCompleted))
     | "disk" => if allTrue s.diskOK && (List.range s.cfg.flens.length).all (fun f => s.cfg.fpads.getD f false || s.fileExists.getD f false) then "ok" else "bad"
@@ -408,9 +410,24 @@ def stepDriver (d : DSt) (op implObs : String) : DSt × String × List String :=
       let ident := (if st2.cfg.isPrivate && st2.infoAtAdd then "priv:priv" else "pub:pub") ++ ":ok"
       let anns := (annEvents trk prevSt st2).map fun (i, ev) => s!"{i}:{ev}:{ident}"
       let implAnn := commaList (((impl.find? fun (k, _) => k = "ann").map (·.2)).getD "-")
-      let annViol :=
+      -- C15 transfer counters: `left` of a `stopped` announce is what the bitfield says is missing (before or
+      -- after this op), of a `completed` announce 0, of any other announce one of those or the "unknown" value
+      let leftOf (b : Option (List Bool)) : Nat :=
+        match b with
+        | none => 4294967295
+        | some bits => ((List.range st2.n).filter fun i => !(bits.getD i false)).foldl (fun a i => a + st2.cfg.plens.getD i 0) 0
+      let leftViol := implAnn.filterMap fun e =>
+        let f := e.splitOn ":"
+        let ev := f.getD 1 ""
+        match (f.getD 5 "").drop 1 |>.toString.toNat? with
+        | none => none
+        | some l =>
+          let okStopped := l = leftOf prevSt.bf || l = leftOf st2.bf
+          let ok := if ev = "stopped" then okStopped else if ev = "completed" then l = 0 else (okStopped || l = 4294967295)
+          if (f.getD 5 "").startsWith "L" && !ok then some s!"C15 announce-left-differs-from-missing-bytes entry={e} expected={leftOf prevSt.bf}|{leftOf st2.bf}" else none
+      let annViol := leftViol ++
         (implAnn.filterMap fun e =>
-          if (e.splitOn "!mismatch").length ≥ 2 || e.endsWith ":bad" then some s!"C15 announce-identity-differs-from-torrent entry={e}" else none) ++
+          if (e.splitOn "!mismatch").length ≥ 2 || (e.splitOn ":bad:").length ≥ 2 || e.endsWith ":bad" || e.endsWith ":Pbad" then some s!"C15 announce-identity-differs-from-torrent entry={e}" else none) ++
         (if st2.cfg.isPrivate && st2.infoAtAdd then implAnn.filterMap fun e =>
             if (e.splitOn ":pub").length ≥ 2 then some s!"C19 private-torrent-public-identity-in-announce entry={e}" else none
          else [])
